@@ -251,6 +251,22 @@ def is_emptied(label: str) -> bool:
     return label in ("delete imports", "delete results", "imports := {}", "imports := ''") or (label.startswith("delete imports[") and label.endswith(".filepath"))
 
 
+def doc_is_emptied(data: bytes) -> bool:
+    """Finding class KF_C19_2, judged on what the cache file holds: an object that lacks (or has emptied) imports or
+    results, or an import entry without filepath."""
+    try:
+        d = json.loads(data)
+    except Exception:  # noqa: BLE001
+        return False
+    if not isinstance(d, dict):
+        return False
+    if "imports" not in d or "results" not in d or d["imports"] in ({}, "") :
+        return True
+    if isinstance(d["imports"], list) and any(isinstance(i, dict) and "filepath" not in i for i in d["imports"]):
+        return True
+    return False
+
+
 def jtype(v) -> str:
     return "null" if v is None else "bool" if isinstance(v, bool) else type(v).__name__
 
@@ -514,10 +530,14 @@ def mutation_suite(job) -> dict:
         emptied.append((f"delete {f}" if v is None else f"{f} := {v!r}", json.dumps(d, indent=4).encode()))
     second = [("original", original)] + emptied
     changes = [f for f in files if f != "unrelated.py" and len(files[f]) > 1]
+    recorded = {i["filepath"] for i in doc["imports"]}
     for f in changes:
         (root / f).write_text(files[f][1])
         res = probe(root, [b for _, b in second], opts)
-        rows += [{"label": l, "hex": b.hex(), "world_changed": True, "change": f"{f} edited", "md5s": {f: md5(files[f][1].encode())}, **x}
+        # the edit matters to the cache only if the file is the target or one of the recorded origins (at -f 0 a transitive
+        # import is neither analysed nor recorded: it did not feed the cached results)
+        relevant = f == "target.py" or str(root / f) in recorded
+        rows += [{"label": l, "hex": b.hex(), "world_changed": relevant, "change": f"{f} edited" + ("" if relevant else " (not among the recorded origins)"), "md5s": {f: md5(files[f][1].encode())}, **x}
                  for (l, b), x in zip(second, res)]
         (root / f).write_text(files[f][0])
     other = ["-f", "0"] if opts != ["-f", "0"] else []
@@ -575,7 +595,7 @@ def main(tier: str) -> int:
         for i, e in enumerate(h["log"]):
             op_hist[e["op"]] = op_hist.get(e["op"], 0) + 1
             if e["op"] in ("overwrite", "remove"):
-                emptied_seen = e["op"] == "overwrite" and is_emptied(e["label"])
+                emptied_seen = e["op"] == "overwrite" and doc_is_emptied(bytes.fromhex(e["hex"]))
             if e["op"] not in ("run", "refresh"):
                 continue
             n_runs += 1
